@@ -18,7 +18,7 @@ def run(tier, seed, faults=()):
         return rep
     n = 2 if tier == "quick" else 3
     cm.run_replay_stage(rep, "GenHistModel", cm.gen_cfg(constants(n, faults=faults)), replay_walk, "all histories, %d steps" % n,
-                        max_histories=None if tier == "thorough" else 6000, seed=seed)
+                        max_histories=60000 if tier == "thorough" else 6000, seed=seed)
     cm.run_replay_stage(rep, "GenHistModel", cm.gen_cfg(constants(10, faults=faults)), replay_walk, "simulate",
                         simulate=(60 if tier == "quick" else 600, 10, seed + 1))
     rep.assumptions += ["densities of the model-checked part are polynomials of degree <= 4 with integer coefficients on integer bin edges "
